@@ -38,7 +38,13 @@ class LInner(AwareASTNode):
     items: tuple[AwareASTNode, ...] = ()
     lst: list[AwareASTNode] = field(default_factory=list)
     un: LLeaf | LLeafB | None = None
+    oseq: tuple[AwareASTNode, ...] | None = None
     v: int = 0
+
+
+@dataclass
+class LInnerX(LInner):
+    extra: AwareASTNode | None = None
 
 
 @dataclass
@@ -49,11 +55,14 @@ class LReq(AwareASTNode):
 
 CHILD_FIELDS = {
     "LLeaf": [], "LLeafB": [], "LSub": [],
-    "LInner": [("req", "one"), ("opt", "one"), ("items", "tuple"), ("lst", "list"), ("un", "one")],
+    "LInner": [("req", "one"), ("opt", "one"), ("items", "tuple"), ("lst", "list"), ("un", "one"), ("oseq", "otuple")],
+    "LInnerX": [("req", "one"), ("opt", "one"), ("items", "tuple"), ("lst", "list"), ("un", "one"), ("oseq", "otuple"),
+                ("extra", "one")],
     "LReq": [("req", "one")],
 }
-PROP_FIELDS = {"LLeaf": ["v"], "LLeafB": ["s"], "LSub": ["v", "w"], "LInner": ["v"], "LReq": ["v"]}
-BASES = {"LLeaf": ["LLeaf"], "LLeafB": ["LLeafB"], "LSub": ["LSub", "LLeaf"], "LInner": ["LInner"], "LReq": ["LReq"]}
+PROP_FIELDS = {"LLeaf": ["v"], "LLeafB": ["s"], "LSub": ["v", "w"], "LInner": ["v"], "LInnerX": ["v"], "LReq": ["v"]}
+BASES = {"LLeaf": ["LLeaf"], "LLeafB": ["LLeafB"], "LSub": ["LSub", "LLeaf"], "LInner": ["LInner"],
+         "LInnerX": ["LInnerX", "LInner"], "LReq": ["LReq"]}
 CLASS_NAMES = list(CHILD_FIELDS)
 UN_CLASSES = ("LLeaf", "LLeafB", "LSub")
 
@@ -114,6 +123,8 @@ class LBuilt:
             v = s.get("k", {}).get(fn)
             if kind == "one":
                 kw[fn] = None if v is None else self._build(v, node_kwargs)
+            elif kind == "otuple":
+                kw[fn] = None if v is None else tuple(self._build(x, node_kwargs) for x in v)
             elif kind == "tuple":
                 kw[fn] = tuple(self._build(x, node_kwargs) for x in (v or []))
             else:
@@ -158,15 +169,21 @@ def st_tree(leaves: int = 10, width: int = 4, wide: bool = True):
         items = st.lists(children, max_size=width)
         full = st.fixed_dictionaries({
             "c": st.just("LInner"), "o": origin, "p": st.fixed_dictionaries({"v": st.integers(0, 2)}),
-            "k": st.fixed_dictionaries({"req": opt, "opt": opt, "items": items, "lst": items, "un": st.one_of(st.none(), unleaf)}),
+            "k": st.fixed_dictionaries({"req": opt, "opt": opt, "items": items, "lst": items, "un": st.one_of(st.none(), unleaf),
+                                        "oseq": st.one_of(st.none(), st.none(), items)}),
+        })
+        fullx = st.fixed_dictionaries({
+            "c": st.just("LInnerX"), "o": origin, "p": st.fixed_dictionaries({"v": st.integers(0, 2)}),
+            "k": st.fixed_dictionaries({"req": opt, "opt": st.none(), "items": items, "lst": st.just([]), "un": st.none(),
+                                        "oseq": st.none(), "extra": opt}),
         })
         req = st.fixed_dictionaries({"c": st.just("LReq"), "o": origin, "p": st.fixed_dictionaries({"v": st.integers(0, 2)}),
                                      "k": st.fixed_dictionaries({"req": children})})
-        opts = [full, full, req]
+        opts = [full, full, fullx, req]
         if wide:
             w = st.fixed_dictionaries({
                 "c": st.just("LInner"), "o": origin, "p": st.just({"v": 0}),
-                "k": st.fixed_dictionaries({"req": st.none(), "opt": st.none(), "un": st.none(),
+                "k": st.fixed_dictionaries({"req": st.none(), "opt": st.none(), "un": st.none(), "oseq": st.none(),
                                             "items": st.lists(leaf, min_size=11, max_size=13),
                                             "lst": st.lists(leaf, min_size=0, max_size=12)}),
             })
@@ -174,3 +191,22 @@ def st_tree(leaves: int = 10, width: int = 4, wide: bool = True):
         return st.one_of(*opts)
 
     return st.recursive(leaf, inner, max_leaves=leaves)
+
+
+def warm(order: str) -> None:
+    """first use of the legacy classes in a chosen order (bases before subclasses or the reverse)"""
+    from pyoak.origin import NO_ORIGIN
+
+    if order not in ("bases", "subs"):
+        return
+    names = CLASS_NAMES if order == "bases" else list(reversed(CLASS_NAMES))
+    with warnings.catch_warnings():
+        warnings.simplefilter("ignore", DeprecationWarning)
+        for name in names:
+            kw = {"req": cls("LLeaf")(origin=NO_ORIGIN, v=9)} if name == "LReq" else {}
+            n = cls(name)(origin=NO_ORIGIN, **kw)
+            list(n.get_child_nodes())
+            list(n.get_child_nodes_with_field())
+            list(n.get_properties())
+            type(n).get_child_fields()
+            n.detach()
